@@ -473,12 +473,42 @@ def check_named_unpack_binds_names_only(repo, rep):
         raise AnalysisError('anchor vanished: system.unpack(*names)')
     names = fi.node.args.vararg.arg
 
+    def is_str_call(e):
+        return isinstance(e, ast.Call) and isinstance(
+            e.func, ast.Name) and e.func.id == 'str'
+
+    def key_is_positional(f, key):
+        """str(i), or a loop variable ranging over pairs whose first
+        component is str(i) (a generator of (str(i), value) pairs, alone
+        or chained with other pairs)."""
+        if is_str_call(key):
+            return True
+        if not isinstance(key, ast.Name):
+            return False
+        for lp in ast.walk(f.node):
+            if not isinstance(lp, (ast.For, ast.comprehension)):
+                continue
+            tg = lp.target
+            elts = tg.elts if isinstance(tg, (ast.Tuple, ast.List)) \
+                else [tg]
+            idx = [i for i, t in enumerate(elts)
+                   if isinstance(t, ast.Name) and t.id == key.id]
+            if not idx:
+                continue
+            src = norm.subst_locals(f.node, lp.iter, only_pure=False)
+            for g in ast.walk(src):
+                if isinstance(g, (ast.GeneratorExp, ast.ListComp)) and \
+                        isinstance(g.elt, ast.Tuple) and \
+                        idx[0] < len(g.elt.elts) and is_str_call(
+                            g.elt.elts[idx[0]]):
+                    return True
+        return False
+
     def positional_stores(f):
         out = []
         for w in effects.writes_in(f.node):
-            if w.kind == 'subscript' and isinstance(w.key, ast.Call) and \
-                    isinstance(w.key.func, ast.Name) and \
-                    w.key.func.id == 'str':
+            if w.kind == 'subscript' and w.key is not None and \
+                    key_is_positional(f, w.key):
                 out.append(w.node)
         return out
     writers = {f.name for f in mod.functions.values()
